@@ -101,7 +101,7 @@ func newV1(prefix string, ct *Controllers) (cg Cgroup, err error) {
 	// if failed, remove potential created directory
 	defer func() {
 		if err != nil && !v1.existing {
-			for _, p := range v1.all {
+			for _, p := range v1.created {
 				remove(p.path)
 			}
 		}
@@ -114,12 +114,14 @@ func newV1(prefix string, ct *Controllers) (cg Cgroup, err error) {
 			if len(v1.all) == 0 {
 				v1.existing = true
 			}
+			v1.all = append(v1.all, *cg)
 			return nil
 		}
 		if err != nil {
 			return err
 		}
 		v1.all = append(v1.all, *cg)
+		v1.created = append(v1.created, *cg)
 		return nil
 	}); err != nil {
 		return
